@@ -21,7 +21,7 @@ SPEC = docsweep.Spec(
           "merged cells, content controls, unknown wrappers, XML trivia) x 4 option settings + corpus; "
           "non-trivial = contains a table, a nested paragraph or a block wrapper; distinct = distinct package bytes"),
     knobs={"nested_pars": 0.3, "nested_tables": 0.2, "sdt_in_table": 0.1, "tables": 0.4},
-    edge=["cell_without_par"],
+    edge=["cell_without_par", "textbox_in_link"],
     project=project,
     oracle=oracles.o_shape,
     nontrivial=lambda fs: bool(fs & {"table", "nested_par", "block_sdt", "unknown_block", "nested_table", "corpus"}),
